@@ -130,6 +130,75 @@ Proof.
   - intros Hz. apply Qeq_eqR in Hz. rewrite Q2R_qmax, Q2R_0, Q2R_1 in Hz.
     pose proof (Rmax_r (Q2R l) 1). lra.
 Qed.
+Lemma len2_nonzero_pos s d : Qeq_bool (len2 s d) 0 = false -> (0 < len2 s d)%Q.
+Proof.
+  intros H. pose proof (len2_nonneg s d) as Hn.
+  destruct (Qlt_le_dec 0 (len2 s d)) as [Hl|Hl]; [exact Hl|].
+  assert (Heq : (len2 s d == 0)%Q) by (apply Qle_antisym; assumption).
+  apply Qeq_bool_iff in Heq. congruence.
+Qed.
+
+(* THE division guard of distance_to_edge: the divisor of the projection is > 0 for
+   every edge, in both variants (current tree: |d|^2, or 1 when |d|^2 = 0; pinned tree
+   before fix 5bfaeb9: max(|d|^2, 1)).  Every "never NaN" statement about
+   distance_to_edge / make_edge_maps below goes through this lemma. *)
+Lemma edge_len_pos fl s d : (0 < edge_len fl (len2 s d))%Q.
+Proof.
+  unfold edge_len. destruct fl.
+  - destruct (Qeq_bool (len2 s d) 0) eqn:E; [reflexivity|]. apply len2_nonzero_pos; exact E.
+  - apply Rlt_Qlt. rewrite Q2R_qmax, Q2R_0, Q2R_1. pose proof (Rmax_r (Q2R (len2 s d)) 1). lra.
+Qed.
+
+(* ---- the partial division of the model (EdgeMaps.qdiv): defined iff the divisor is not 0 ---- *)
+Lemma qdiv_some n d : ~ (d == 0)%Q -> qdiv n d = Some (n / d)%Q.
+Proof.
+  intros H. unfold qdiv. destruct (Qeq_bool d 0) eqn:E; [|reflexivity].
+  apply Qeq_bool_iff in E. contradiction.
+Qed.
+
+Lemma qdiv_none_iff n d : qdiv n d = None <-> (d == 0)%Q.
+Proof.
+  unfold qdiv. destruct (Qeq_bool d 0) eqn:E.
+  - apply Qeq_bool_iff in E. tauto.
+  - split; [discriminate|]. intros H. apply Qeq_bool_iff in H. congruence.
+Qed.
+
+(* the VALUES of the two partial functions where they are defined (total helper
+   functions of the proofs only: the model and its evaluated path use qdiv) *)
+Definition dist_val (el : Q) (s d : Q * Q) (x y : Q) : Q :=
+  let dx := (fst d - fst s)%Q in
+  let dy := (snd d - snd s)%Q in
+  let rx := (x - fst s)%Q in
+  let ry := (y - snd s)%Q in
+  let t := clamp01 ((rx * dx + ry * dy) / el)%Q in
+  (sq (t * dx - rx) + sq (t * dy - ry))%Q.
+
+Definition garg_val (sig x : Q) : Q := (- (sq x) / (2 * sq sig))%Q.
+
+Lemma dist_edge_div_some el s d x y :
+  ~ (el == 0)%Q -> dist_edge_div el s d x y = Some (dist_val el s d x y).
+Proof. intros H. unfold dist_edge_div. rewrite (qdiv_some _ _ H). reflexivity. Qed.
+
+(* distance_to_edge with divisor el is NaN exactly when el = 0 *)
+Lemma dist_edge_div_none_iff el s d x y : dist_edge_div el s d x y = None <-> (el == 0)%Q.
+Proof.
+  unfold dist_edge_div. rewrite <- (qdiv_none_iff ((x - fst s) * (fst d - fst s) + (y - snd s) * (snd d - snd s)) el).
+  destruct (qdiv _ el); simpl; split; intros H; try discriminate; reflexivity.
+Qed.
+
+(* hence the UNGUARDED code (divisor |d|^2 itself) returns NaN for coincident endpoints *)
+Lemma unguarded_dist_nan s d x y : (len2 s d == 0)%Q <-> dist_edge_div (len2 s d) s d x y = None.
+Proof. symmetry. apply dist_edge_div_none_iff. Qed.
+
+Lemma gauss_arg_none_iff sig x : gauss_arg sig x = None <-> (sig == 0)%Q.
+Proof.
+  unfold gauss_arg. rewrite qdiv_none_iff. unfold sq. split; intros H.
+  - destruct (Qeq_dec sig 0) as [E|E]; [exact E|]. exfalso.
+    assert (H2 : (sig * sig == 0)%Q).
+    { apply (Qmult_inj_l _ _ 2); [discriminate|]. rewrite H. ring. }
+    apply Qmult_integral in H2. tauto.
+  - rewrite H. ring.
+Qed.
 
 (* outside the selector of F1 (and for a non-degenerate edge) the divisor is |d|^2 *)
 Definition len_ok (fl : bool) (s d : Q * Q) : Prop :=
@@ -176,16 +245,30 @@ Proof. intros H. split; [reflexivity|exact H]. Qed.
 Section WithVariant.
 Variable fl : bool.
 
-(* the model's weight for an edge with both endpoints present *)
+(* the value of distance_to_edge in the variant fl ... *)
+Definition dval (s d : Q * Q) (x y : Q) : Q := dist_val (edge_len fl (len2 s d)) s d x y.
+
+(* ... which the model's (partial) distance_to_edge always has: this is where the
+   division guard is used *)
+Lemma dist_edge_some s d x y : dist_edge fl s d x y = Some (dval s d x y).
+Proof.
+  unfold dist_edge, dval. apply dist_edge_div_some.
+  intros E. pose proof (edge_len_pos fl s d) as Hp. rewrite E in Hp. discriminate.
+Qed.
+
+(* real value of an optional exponent (None = NaN, swept to 0 by make_multi_pafs) *)
+Definition wexp (o : option Q) : R := match o with Some a => exp (Q2R a) | None => 0 end.
+
+(* the model's weight for an edge with both endpoints present: the exp of what the
+   MODEL (partial divisions included) computes *)
 Definition mweight (sig : Q) (s d : Q * Q) (x y : Q) : R :=
-  exp (Q2R (gauss_arg sig (dist_edge fl s d x y))).
+  wexp (obind (gauss_arg sig) (dist_edge fl s d x y)).
 
 Lemma Q2R_dist_edge s d x y :
-  Q2R (dist_edge fl s d x y) =
+  Q2R (dval s d x y) =
   proj_dist2 (Q2R (edge_len fl (len2 s d))) (q2 s) (q2 d) (Q2R x, Q2R y).
 Proof.
-  unfold dist_edge, proj_dist2, q2. cbn [fst snd].
-  change (sq (fst d - fst s) + sq (snd d - snd s))%Q with (len2 s d).
+  unfold dval, dist_val, proj_dist2, q2. cbn [fst snd]. cbv zeta.
   rewrite Q2R_plus, !Q2R_sq, !Q2R_minus, !Q2R_mult, Q2R_clamp01.
   rewrite Q2R_div by (apply edge_len_nonzero; apply len2_nonneg).
   rewrite Q2R_plus, !Q2R_mult, !Q2R_minus. reflexivity.
@@ -409,11 +492,22 @@ Proof.
   pose proof (two_sq_pos _ (sig_pos_R _ Hs)). lra.
 Qed.
 
+Lemma gauss_arg_some sig x : (0 < sig)%Q -> gauss_arg sig x = Some (garg_val sig x).
+Proof. intros Hs. unfold gauss_arg, garg_val. apply qdiv_some. apply sig_sq_nonzero. exact Hs. Qed.
+
 Lemma Q2R_gauss_arg sig x :
-  (0 < sig)%Q -> Q2R (gauss_arg sig x) = - (Q2R x * Q2R x) / (2 * (Q2R sig * Q2R sig)).
+  (0 < sig)%Q -> Q2R (garg_val sig x) = - (Q2R x * Q2R x) / (2 * (Q2R sig * Q2R sig)).
 Proof.
-  intros Hs. unfold gauss_arg. rewrite Q2R_div by (apply sig_sq_nonzero; exact Hs).
+  intros Hs. unfold garg_val. rewrite Q2R_div by (apply sig_sq_nonzero; exact Hs).
   rewrite Q2R_opp, Q2R_mult, !Q2R_sq, Q2R_2. reflexivity.
+Qed.
+
+(* for sigma > 0 both partial functions are defined and the weight is exp of the value *)
+Lemma mweight_val sig s d x y :
+  (0 < sig)%Q -> mweight sig s d x y = exp (Q2R (garg_val sig (dval s d x y))).
+Proof.
+  intros Hs. unfold mweight. rewrite dist_edge_some. cbn [obind]. rewrite gauss_arg_some by exact Hs.
+  reflexivity.
 Qed.
 
 (* the model's weight is the code's formula applied to the projected squared distance *)
@@ -422,7 +516,7 @@ Lemma mweight_eq sig s d x y :
   mweight sig s d x y =
   paf_weight (Q2R sig) (proj_dist2 (Q2R (edge_len fl (len2 s d))) (q2 s) (q2 d) (Q2R x, Q2R y)).
 Proof.
-  intros Hs. unfold mweight, paf_weight. rewrite Q2R_gauss_arg by exact Hs.
+  intros Hs. rewrite mweight_val by exact Hs. unfold paf_weight. rewrite Q2R_gauss_arg by exact Hs.
   rewrite Q2R_dist_edge. reflexivity.
 Qed.
 
@@ -432,13 +526,19 @@ Proof. intros Hs. rewrite mweight_eq by exact Hs. apply paf_weight_range. apply 
 Lemma len2_pos_R s d : (0 < len2 s d)%Q -> 0 < d2 (q2 d) (q2 s).
 Proof. intros H. apply Qlt_Rlt in H. rewrite Q2R_0, Q2R_len2 in H. exact H. Qed.
 
-Lemma model_dist_is_seg_dist2 s d x y :
+Lemma dval_is_seg_dist2 s d x y :
   len_ok fl s d ->
-  is_seg_dist2 (q2 s) (q2 d) (Q2R x, Q2R y) (Q2R (dist_edge fl s d x y)).
+  is_seg_dist2 (q2 s) (q2 d) (Q2R x, Q2R y) (Q2R (dval s d x y)).
 Proof.
   intros Hok. rewrite Q2R_dist_edge, (edge_len_exact _ _ _ Hok).
   apply proj_dist2_is_seg_dist2. apply len2_pos_R. eapply len_ok_pos. exact Hok.
 Qed.
+
+(* the model's distance_to_edge is defined and IS the squared distance to the segment *)
+Lemma model_dist_is_seg_dist2 s d x y :
+  len_ok fl s d ->
+  exists D, dist_edge fl s d x y = Some D /\ is_seg_dist2 (q2 s) (q2 d) (Q2R x, Q2R y) (Q2R D).
+Proof. intros Hok. exists (dval s d x y). split; [apply dist_edge_some|apply dval_is_seg_dist2; exact Hok]. Qed.
 
 (* (b) outside F1 the weight is the code's function of the TRUE squared distance to
    the closed segment *)
@@ -447,8 +547,8 @@ Lemma mweight_true_distance sig s d x y v :
   is_seg_dist2 (q2 s) (q2 d) (Q2R x, Q2R y) v ->
   mweight sig s d x y = paf_weight (Q2R sig) v.
 Proof.
-  intros Hs HL Hv. unfold mweight, paf_weight. rewrite Q2R_gauss_arg by exact Hs.
-  rewrite (seg_dist2_unique _ _ _ _ _ (model_dist_is_seg_dist2 s d x y HL) Hv). reflexivity.
+  intros Hs HL Hv. rewrite mweight_val by exact Hs. unfold paf_weight. rewrite Q2R_gauss_arg by exact Hs.
+  rewrite (seg_dist2_unique _ _ _ _ _ (dval_is_seg_dist2 s d x y HL) Hv). reflexivity.
 Qed.
 
 (* whatever the length, the weight never exceeds the one of the true distance *)
@@ -481,7 +581,7 @@ Lemma mweight_on_segment sig s d x y :
   on_segment (q2 s) (q2 d) (Q2R x, Q2R y) -> mweight sig s d x y = 1.
 Proof.
   intros Hs HL Hon.
-  pose proof (model_dist_is_seg_dist2 s d x y HL) as Hv.
+  pose proof (dval_is_seg_dist2 s d x y HL) as Hv.
   rewrite (mweight_true_distance sig s d x y _ Hs HL Hv).
   apply paf_weight_one_iff; [apply sig_pos_R; exact Hs | eapply seg_dist2_nonneg; exact Hv |].
   apply (seg_dist2_zero_iff _ _ _ _ Hv). exact Hon.
@@ -492,7 +592,7 @@ Lemma mweight_one_only_on_segment sig s d x y :
   mweight sig s d x y = 1 -> on_segment (q2 s) (q2 d) (Q2R x, Q2R y).
 Proof.
   intros Hs HL H1.
-  pose proof (model_dist_is_seg_dist2 s d x y HL) as Hv.
+  pose proof (dval_is_seg_dist2 s d x y HL) as Hv.
   rewrite (mweight_true_distance sig s d x y _ Hs HL Hv) in H1.
   apply (seg_dist2_zero_iff _ _ _ _ Hv).
   apply (paf_weight_one_iff (Q2R sig)); [apply sig_pos_R; exact Hs | eapply seg_dist2_nonneg; exact Hv | exact H1].
@@ -541,15 +641,6 @@ Proof.
 Qed.
 
 
-Lemma len2_nonzero_pos s d : Qeq_bool (len2 s d) 0 = false -> (0 < len2 s d)%Q.
-Proof.
-  intros H. pose proof (len2_nonneg s d) as Hn.
-  destruct (Qlt_le_dec 0 (len2 s d)) as [Hl|Hl]; [exact Hl|].
-  assert (Heq : (len2 s d == 0)%Q) by (apply Qle_antisym; assumption).
-  apply Qeq_bool_iff in Heq. congruence.
-Qed.
-
-
 (* zero contribution: missing endpoint, zero-length edge *)
 Lemma paf_cell_missing_src sig d x y : paf_cell fl sig None d x y = (None, None).
 Proof. reflexivity. Qed.
@@ -566,18 +657,34 @@ Qed.
 Lemma len2_same s : (len2 s s == 0)%Q.
 Proof. unfold len2, sq. ring. Qed.
 
-(* (a) a visible edge of non-zero length contributes weight * unit vector *)
-Lemma paf_cell_value sig s d x y :
+(* (a) a visible edge of non-zero length contributes weight * unit vector (for sigma = 0,
+   outside the domain, both sides are 0: no term, weight of a NaN exponent) *)
+Lemma paf_cell_pval sig s d x y c :
   Qeq_bool (len2 s d) 0 = false ->
+  pval (comp c (paf_cell fl sig (Some s) (Some d) x y)) =
+  mweight sig s d x y * comp c (unit_vec_spec (q2 s) (q2 d)).
+Proof.
+  intros Hz. unfold paf_cell, unit_vec, dist_edge_opt, mweight. rewrite Hz.
+  destruct (obind (gauss_arg sig) (dist_edge fl s d x y)) as [a|].
+  - destruct c; unfold comp, pval, wexp, tval, unit_vec_spec, q2; cbn [fst snd];
+      rewrite Q2R_len2, !Q2R_minus; unfold q2; cbn [fst snd]; reflexivity.
+  - destruct c; unfold comp, pval, wexp; cbn [fst snd]; ring.
+Qed.
+
+(* ... and for sigma > 0 there really are two terms *)
+Lemma paf_cell_value sig s d x y :
+  (0 < sig)%Q -> Qeq_bool (len2 s d) 0 = false ->
   exists tx ty,
     paf_cell fl sig (Some s) (Some d) x y = (Some tx, Some ty) /\
     tval tx = mweight sig s d x y * fst (unit_vec_spec (q2 s) (q2 d)) /\
     tval ty = mweight sig s d x y * snd (unit_vec_spec (q2 s) (q2 d)) /\
     (snd tx == len2 s d)%Q /\ (snd ty == len2 s d)%Q.
 Proof.
-  intros Hz. unfold paf_cell, unit_vec, dist_edge_opt. rewrite Hz.
+  intros Hs Hz. rewrite (mweight_val _ _ _ _ _ Hs).
+  unfold paf_cell, unit_vec, dist_edge_opt. rewrite Hz, dist_edge_some. cbn [obind].
+  rewrite (gauss_arg_some _ _ Hs).
   eexists. eexists. split; [reflexivity|].
-  unfold tval, mweight, unit_vec_spec, q2. cbn [fst snd].
+  unfold tval, unit_vec_spec, q2. cbn [fst snd].
   rewrite Q2R_len2, !Q2R_minus. unfold q2. cbn [fst snd].
   repeat split; reflexivity.
 Qed.
@@ -874,8 +981,7 @@ Proof.
   intros Ha Hb Hz. unfold animal_contrib. rewrite Ha, Hb.
   assert (Hzb : Qeq_bool (len2 p q) 0 = false).
   { destruct (Qeq_bool (len2 p q) 0) eqn:E; [|reflexivity]. apply Qeq_bool_iff in E. contradiction. }
-  destruct (paf_cell_value sig p q x y Hzb) as [tx [ty [-> [Hx [Hy _]]]]].
-  destruct c; unfold comp; cbn [fst snd pval]; assumption.
+  apply paf_cell_pval. exact Hzb.
 Qed.
 
 (* (e) no NaN can reach the output: every term has a strictly positive len2 (so the
@@ -884,7 +990,7 @@ Qed.
 Definition term_ok (t : term) : Prop :=
   let '(a, n, l) := t in (a <= 0)%Q /\ (0 < l)%Q /\ (n * n <= l)%Q.
 
-Lemma gauss_arg_nonpos sig x : (0 < sig)%Q -> (gauss_arg sig x <= 0)%Q.
+Lemma gauss_arg_nonpos sig x : (0 < sig)%Q -> (garg_val sig x <= 0)%Q.
 Proof.
   intros Hs. apply Rle_Qle. rewrite Q2R_0, Q2R_gauss_arg by exact Hs.
   pose proof (neg_div_le 0 (Q2R x * Q2R x) _ (two_sq_pos _ (sig_pos_R _ Hs))) as H.
@@ -907,7 +1013,8 @@ Proof.
     try (destruct c; discriminate).
   destruct (Qeq_bool (len2 s d) 0) eqn:E; [destruct c; discriminate|].
   pose proof (len2_nonzero_pos _ _ E) as Hl. pose proof (comp_sq_le_len2 s d) as [Hx Hy].
-  pose proof (gauss_arg_nonpos sig (dist_edge fl s d x y) Hs) as Ha.
+  pose proof (gauss_arg_nonpos sig (dval s d x y) Hs) as Ha.
+  rewrite dist_edge_some. cbn [obind]. rewrite (gauss_arg_some _ _ Hs).
   destruct c; unfold comp; cbn [fst snd]; intros Heq; inversion Heq; subst; unfold term_ok; auto.
 Qed.
 
@@ -1177,7 +1284,7 @@ Qed.
 Lemma nat_Q_le a b : (a <= b)%nat -> (nat_Q a <= nat_Q b)%Q.
 Proof. intros H. unfold nat_Q, Qle, inject_Z. simpl. lia. Qed.
 
-(* the code's filter box lies inside the image: xv[-1] <= W-1, yv[-1] <= H-1 *)
+(* the historic filter box (fb = false, pinned tree before fix f00ee7f) lies inside the image: xv[-1] <= W-1, yv[-1] <= H-1 *)
 Lemma in_img_strict_implies_closed H W s inst :
   (0 < s)%nat -> (0 < H)%nat -> (0 < W)%nat ->
   in_img false H W (grid W s) (grid H s) inst = true -> in_img true H W (grid W s) (grid H s) inst = true.
@@ -1188,7 +1295,7 @@ Proof.
   eapply node_in_strict_closed; [| |exact Hp]; apply nat_Q_le; assumption.
 Qed.
 
-(* animals wholly outside the image are dropped, by the code's filter and by the repaired one *)
+(* animals wholly outside the image (no node in [0,W-1]x[0,H-1]) are dropped, by the current filter (fb = true) and by the historic one *)
 Theorem wholly_outside_dropped fb H W s inst :
   (0 < s)%nat -> (0 < H)%nat -> (0 < W)%nat ->
   (forall p, In p inst -> node_in_closed (nat_Q (W - 1)) (nat_Q (H - 1)) p = false) ->
@@ -1216,7 +1323,7 @@ Lemma kept_In fb H W s insts inst :
   In inst (kept fb H W s insts) <-> In inst insts /\ in_img fb H W (grid W s) (grid H s) inst = true.
 Proof. unfold kept. apply filter_In. Qed.
 
-(* the repaired filter keeps exactly the animals with a node in the closed image rectangle *)
+(* the current filter (fb = true) keeps exactly the animals with a node in the closed image rectangle *)
 Theorem fixed_box_keeps_in_image H W xv yv inst :
   in_img true H W xv yv inst = true <->
   exists x y, In (Some (x, y)) inst /\ (0 <= x <= nat_Q (W - 1))%Q /\ (0 <= y <= nat_Q (H - 1))%Q.
@@ -1228,7 +1335,7 @@ Proof.
     apply node_in_closed_spec. exists x, y. auto.
 Qed.
 
-(* the code's filter: a node strictly inside (0, xv[-1]) x (0, yv[-1]) *)
+(* the historic filter (fb = false): a node strictly inside (0, xv[-1]) x (0, yv[-1]) *)
 Theorem strict_box_keeps H W xv yv inst :
   in_img false H W xv yv inst = true <->
   exists x y, In (Some (x, y)) inst /\ (0 < x)%Q /\ (x < last xv 0)%Q /\ (0 < y)%Q /\ (y < last yv 0)%Q.
@@ -1240,7 +1347,7 @@ Proof.
     apply node_in_strict_spec. exists x, y. auto.
 Qed.
 
-(* outside the selector the code's filter keeps every animal that has a node in the image *)
+(* outside the selector the historic filter keeps every animal that has a node in the image *)
 Lemma in_image_animal_kept_partial H W s inst :
   selector_strict_box H W s inst = false ->
   (exists p, In p inst /\ node_in_closed (nat_Q (W - 1)) (nat_Q (H - 1)) p = true) ->
@@ -1323,7 +1430,7 @@ Qed.
 End WithVariant.
 
 (* F1: the full statement (weight 1 on the segment for EVERY non-degenerate edge) is
-   false of the code as it is (fixed_len = false) *)
+   false of the pinned tree before fix 5bfaeb9 (fixed_len = false; historic variant) *)
 Lemma mweight_on_segment_refuted :
   exists sig s d x y,
     (0 < sig)%Q /\ selector_F1 false s d = true /\ ~ (len2 s d == 0)%Q /\
@@ -1332,12 +1439,12 @@ Proof.
   exists (3#2)%Q, ((3#2)%Q, 2%Q), ((9#4)%Q, 2%Q), 2%Q, 2%Q.
   split; [reflexivity|]. split; [vm_compute; reflexivity|]. split; [vm_compute; discriminate|]. split.
   - exists (2/3). split; [lra|]. unfold pt_on, q2, Q2R. simpl. f_equal; field.
-  - unfold mweight. rewrite <- exp_0. apply exp_increasing.
-    assert (H : (gauss_arg (3#2) (dist_edge false (3#2, 2) (9#4, 2) 2 2) < 0)%Q) by (vm_compute; reflexivity).
+  - rewrite mweight_val by reflexivity. rewrite <- exp_0. apply exp_increasing.
+    assert (H : (garg_val (3#2) (dval false (3#2, 2) (9#4, 2) 2 2) < 0)%Q) by (vm_compute; reflexivity).
     apply Qlt_Rlt in H. rewrite Q2R_0 in H. exact H.
 Qed.
 
-(* F23: "every animal with a node inside the image is kept" is false of the code's filter,
+(* F23: "every animal with a node inside the image is kept" is false of the historic filter (fb = false),
    and a cell lying on the dropped animal's segment holds no term (value 0, not the unit vector) *)
 Lemma in_image_animal_kept_refuted :
   exists H W s inst,
